@@ -1,5 +1,11 @@
 package quic
 
+import (
+	"net"
+
+	tls "github.com/refraction-networking/utls"
+)
+
 // Export shim for the C13 / C17 harnesses (package quic_test): read-only views of
 // unexported transport state.
 
@@ -16,4 +22,11 @@ func VerifResetTokenCount(t *Transport) int {
 	t.mutex.Lock()
 	defer t.mutex.Unlock()
 	return len(t.resetTokens)
+}
+
+// VerifDialTransport returns the Transport that quic.Dial(ctx, c, ...) sets up for its one
+// connection (single use, zero-length source connection IDs), so that the harness can dial
+// through it and still look at its routing entries afterwards.
+func VerifDialTransport(c net.PacketConn, tlsConf *tls.Config) (*Transport, error) {
+	return setupTransport(c, tlsConf, false)
 }
